@@ -351,6 +351,47 @@ def cache_put(base, key, value):
     os.replace(tmp, p)
 
 
+def reflection_bounded(run):
+    """bounded stand-in for the assumed contracts of the reflection helpers"""
+    try:
+        rc, out, err = run_native([os.path.join(
+            VERIF, 'checks', 'reflection_native.py')], run.repo, timeout=300)
+        r = json.loads(out)
+    except Exception as ex:      # noqa
+        run.broken.append('reflection stand-in failed to run: %r' % (ex,))
+        return
+    run.bounded.append(Bounded(
+        'reflection-helpers', 'all type terms up to depth 2 over 13 classes, '
+        'the built-in scalars, List/Sequence/MutableSequence, Dict/Mapping/'
+        'MutableMapping, Union, Optional; all __init__ signatures with up to '
+        '3 parameters (annotated or not, defaults on a suffix, _yatiml_extra '
+        'at every position with/without default, _yatiml_defaults overrides)',
+        r['evaluations'], r['failures'],
+        'is_generic_*, generic_type_args, is_string_like, is_abstract, '
+        'class_subobjects, defaulted_attributes against independent oracles '
+        '(typing.get_origin/get_args, inspect.signature)'))
+
+
+def transforms_bounded(run):
+    try:
+        rc, out, err = run_native([os.path.join(
+            VERIF, 'checks', 'transforms_native.py')], run.repo, timeout=600)
+        r = json.loads(out)
+    except Exception as ex:      # noqa
+        run.broken.append('transforms stand-in failed to run: %r' % (ex,))
+        return
+    run.bounded.append(Bounded(
+        'structural-transforms', 'attribute = sequence of <= 2 items / '
+        'mapping of <= 2 entries / scalar / missing; items = every mapping '
+        'over the keys {id, val, x} (val scalar or a small mapping) or a '
+        'non-mapping; key attribute id, value attribute in {None, val}, '
+        'strict in {True, False}; plus the inverse laws on the applicable '
+        'cases', r['evaluations'], r['failures'],
+        'the real Node.seq_attribute_to_map / map_attribute_to_seq / '
+        'index_attribute_to_map / map_attribute_to_index against an oracle '
+        'over ordered dictionaries written from the documentation'))
+
+
 def safe(s):
     return re.sub(r'[^A-Za-z0-9_.#-]+', '_', s)[:150]
 
@@ -521,7 +562,7 @@ def finish(run, prop, t0, write_baseline=False):
     samples = [it.brief() for it in run.items
                if it.cls not in ('cover',)][:6]
     samples += [it.brief() for it in run.items if it.status != 'discharged'][:6]
-    level = 'proof'
+    level = prop.get('level', 'proof')
     explanation = prop.get('explanation', '')
     cov = {
         'obligations': n_obl,
